@@ -245,7 +245,7 @@ def field_bits(byte_bits, signed):
 
 
 _FMT = {"b": (1, True), "B": (1, False), "h": (2, True), "H": (2, False), "i": (4, True), "I": (4, False),
-        "l": (4, True), "L": (4, False), "q": (8, True), "Q": (8, False), "x": (1, None), "c": (1, None), "s": (1, None)}
+        "l": (4, True), "L": (4, False), "q": (8, True), "Q": (8, False), "x": (1, None), "c": (1, None), "s": (1, None), "f": (4, "float"), "d": (8, "float")}
 
 
 def parse_format(fmt):
